@@ -105,16 +105,23 @@ def process_nodes_recursive(
     variables=None,
     mode=1,
     premium=False,
+    parsed_declarations=None,
 ):
     if variables is None:
         variables = {}
 
     for node in node_list:
         if isinstance(node, QualifiedRule):
-            # Process declarations
-            declarations = tinycss2.parse_declaration_list(
-                node.content, skip_whitespace=False, skip_comments=False
-            )
+            # Process declarations. Rules whose declarations were parsed up front
+            # (:root / html, re-serialised after the pass) must be edited through
+            # those same objects, or a change made here is overwritten later.
+            declarations = None
+            if parsed_declarations is not None:
+                declarations = parsed_declarations.get(id(node))
+            if declarations is None:
+                declarations = tinycss2.parse_declaration_list(
+                    node.content, skip_whitespace=False, skip_comments=False
+                )
             valid_decls = [d for d in declarations if isinstance(d, Declaration)]
 
             modified = False
@@ -263,6 +270,7 @@ def process_nodes_recursive(
                     variables,
                     mode=mode,
                     premium=premium,
+                    parsed_declarations=parsed_declarations,
                 )
 
                 nested_css = tinycss2.serialize(nested_rules)
@@ -353,6 +361,7 @@ def main(path, default_bg, mode, premium):
                 variables,
                 mode=mode,
                 premium=premium,
+                parsed_declarations=rule_declarations_map,
             )
 
             # Post-process: Update content of rules that had variables modified
